@@ -9,42 +9,42 @@ CLAIMED = {
    text="Conservation / exactly-once check on the render stage of simulated runs: every report (end-to-end over generated trees, and synthetic findings maps) is read back and compared as a multiset of (pattern, file, line) with the findings handed to the renderer, under seeded listing and iteration orders. The input space itself is only sampled by a seeded generator; simulation contributes the orders under which each map is rendered.",
    note="Trusted base: 30-row table configuration name -> module with the section text; parse-back convention (lists after '### Lines', split at last ':'). Findings maps restricted to shapes analyze_dir can produce.",
    technique="deterministic simulation of the render stage under seeded iteration/listing orders with a parse-back conservation oracle",
-   engine="simproc"),
+   engine="simproc+simbin"),
  "C12": dict(level="exploration", design="§6 C12",
    text="Same simulated runs as C11, judged for totals, category parts and severity headings; plus the complete sub-space 16 vulnerability-pattern subsets x 24 iteration orders x 2 multiplicity shapes (768 cases, enumerated). Everything outside that sub-space is seeded sampling.",
    note="Trusted base: severity of the four vulnerability patterns (from the property text), the markers '(Total Optimizations N)' / '(Total Vulnerabilities N)' and the three '## <Severity> Risk' lines.",
    technique="deterministic simulation of the render stage under every iteration order of the vulnerability map (exhaustive sub-space) plus seeded runs, invariant on totals/headings",
-   engine="simproc"),
+   engine="simproc+simbin"),
  "C13": dict(level="exploration", design="§6 C13",
    text="Groups of executions that must agree byte-for-byte: one tree and pattern set under 6 schedules differing in listing permutation, iteration permutation and configured pattern order; and one findings set built and iterated in 6 different orders. Seeded search over schedules; a clean batch is evidence, not proof.",
    note="SeamMap replaces the real RandomState by seeded permutations (all orders the HashMap contract allows); detector-local hash containers are not under the seed natively (audited order-insensitive).",
    technique="deterministic simulation: seeded search over listing/iteration/pattern-order schedules, byte-equality of reports across schedules of the same findings",
-   engine="simproc"),
+   engine="simproc+simbin+simmiri"),
  "C14": dict(level="exploration", design="§6 C14",
    text="Complete table check over every documented name (read from the repository's docs and sample toml at run time) x 6 casings (acceptance, casing-independence, distinctness, default membership, selectability of every default, junk rejection, name->detector behaviour signature), plus seeded simulated process runs through the real Opts::new (clap on a simulated argv, toml file in the simulated world) judged by a small reference model of the flag/file/default resolution and by the journal (unknown name => non-zero status before any write).",
    note="Trusted base: table configuration name -> detector function; generated toml files always carry all four keys; runs whose selected directory does not exist are not judged; main()'s five lines are mirrored by the driver (simbin runs the real main).",
    technique="deterministic simulation of the process environment (argv, cwd, files present, exit status, effect ordering in the journal) against a reference model of option resolution; complete enumeration of the documented-name table",
-   engine="simproc"),
+   engine="simproc+simbin"),
  "C15": dict(level="exploration", design="§6 C15",
    text="Seeded histories of library calls compared with a fresh-process baseline: chains of scenarios run without reset in one child process; each scenario is 2-4 tasks on real OS threads under a baton scheduler whose seeded order decides which thread performs the next call (direct per-file calls with arbitrary file numbers, repeated calls, directory walks embedding the same texts among varying siblings/positions/pattern sets). Every observed (text, pattern) verdict must equal the verdict of one call in a fresh process. Replay and minimisation re-run the chain in fresh processes.",
    note="Call-granular interleaving (one thread runs at a time) natively; preemptive interleaving, data races and seeded RandomState only in the simmiri tier. Baseline trusts a single call in a fresh process.",
    technique="deterministic simulation: seeded baton scheduling of real threads over call histories, differential oracle against a fresh-process single-call baseline",
-   engine="simproc"),
+   engine="simproc+simbin+simmiri"),
  "C16": dict(level="fault_enumeration", design="§6 C16",
    text="Differential simulation: the same walk with and without the inert files under the same schedule must agree and must not fail; every inert file carries a fault (invalid UTF-8, unparseable text, findings-stuffed valid Solidity, read->EIO, read->EACCES) so that touching it is consequential. The name-class x content-class x depth cross product is enumerated completely in every tier; tree shapes, random valid-Unicode names and schedules around it are seeded samples.",
    note="Valid-Unicode names only; names with '.t.sol' in the middle not generated; read_dir failures and vanishing files not injected (property silent).",
    technique="deterministic simulation with enumerated read/content faults on inert files, differential oracle against the same world without them, plus independent-walk reference model",
-   engine="simproc"),
+   engine="simproc+simbin"),
  "C18": dict(level="exploration", design="§6 C18",
    text="Histories of 1-4 simulated process runs on an evolving in-memory world with four working-directory placements and six stale-report variants; after every run (successful or failed) the world may differ only in <cwd>/solstat_report.md, a successful run leaves it, and its bytes equal those of the identical run without the stale report.",
    note="State-based verdict (write-temp-then-rename would pass); fully-qualified std::fs calls bypass the in-memory Env (simbin tier snapshots a real scratch tree); report write failures not injected.",
    technique="deterministic simulation of run histories over a simulated file system with before/after state snapshots and a differential stale-report oracle",
-   engine="simproc"),
+   engine="simproc+simbin"),
  "C03": dict(level="exploration", design="§6 C03",
    text="Seeded simulation of the real directory walkers over in-memory trees under adversarial listing orders, judged against an independent walk that calls the real per-file function on every eligible file (exact multiset equality). Sampling, not proof; the failing traces of this class are tiny (two files, one sub-directory, one transposition) and the quick tier hits the merge path thousands of times.",
    note="Trusts the per-file functions as their own oracle; std::fs is replaced by the in-memory Env behind the cfg seam (simbin tier runs the real binary on a real scratch tree); eligible files are screened valid inputs.",
    technique="deterministic simulation: seeded listing-order/pattern-order schedules over a simulated file system, reference-model (independent walk) oracle, minimised replay files",
-   engine="simproc"),
+   engine="simproc+simbin"),
 }
 
 PENDING = {k: "check designed (DESIGN §6) but not yet built in this session; not claimed until its command exists" for k in ["C11","C12","C13","C14","C15","C16","C18"] if k not in CLAIMED}
@@ -93,7 +93,11 @@ def main():
       },
       "engines":[
         {"name":"simproc","path":"/verif/sim","serves_properties":sorted(CLAIMED.keys()),
-         "kind_free_text":"in-process deterministic simulator: solstat's real option parser, directory walkers, detectors and report renderers run against an in-memory file system, seeded listing/iteration/pattern orders, injected read faults and simulated argv/exit; every run is a pure function of an explicit scenario file"},
+         "kind_free_text":"in-process deterministic simulator: solstat's real option parser, directory walkers, detectors and report renderers run against an in-memory file system, seeded listing/iteration/pattern orders, injected read faults, simulated argv/exit, baton-scheduled threads with seeded switching at guarded yield points; every run is a pure function of an explicit scenario file"},
+        {"name":"simbin","path":"/verif/sim/src/simbin.rs","serves_properties":sorted(CLAIMED.keys()),
+         "kind_free_text":"the real solstat binary built from the working tree with the guard, one child process per run on a real scratch tree; listing order, iteration order, wall clock (LD_PRELOAD interposer /verif/simclock/fakeclock.c), location of the tree and process environment are functions of the run's seed; runs inside every check after the simproc streams"},
+        {"name":"simmiri","path":"/verif/sim-miri","serves_properties":["C13","C15"],
+         "kind_free_text":"solstat's library under Miri (isolation on): real std HashMap/RandomState and real concurrent threads; the Miri seed fixes the thread schedule and the OS entropy; data-race and UB detection; outputs compared across seeds and with the native run"},
       ],
       "checks":checks,
       "not_applicable":sorted(na,key=lambda x:x["property_id"]),
